@@ -60,3 +60,7 @@ def probes(ctx):
     it.acts = [(0, Op('MORE')), (3, Op('POP_BUF')), (5, Op('POP_BUF'))]
     it.wraps = [Op('PUSHNEW', a=16)]
     return sb.probe(PROP, ctx, 'more-eof-switch', sc, p, 'phantom')
+
+
+def features(ctx, case, cls, detail):
+    return sb.features(PROP, ctx, case, cls, detail)
